@@ -82,6 +82,9 @@ func c02Run(w *W, idx int) {
 	r := w.Rand(idx)
 	k := idx - ne
 	switch {
+	case k%20 == 8:
+		tree := wideAndOrGroups(r)
+		c02Program(w, r, "wide-andor-groups", tree, genBindings(r, tree, 4, 0), true, false)
 	case k%10 == 9:
 		tree := guardPatterns(r)
 		var bs []Binding
